@@ -315,6 +315,44 @@ def conf_requests(rng, tier, texts):
         reqs.append(('conf', bytes(t), HOME))
     return reqs
 # --------------------------------------------------------------------------
+# one defect at every rule position of a valid configuration (C14_error_anywhere_rejects_file)
+# --------------------------------------------------------------------------
+
+# (class, a rule holding the defect): the classes of the theorem, in an action, in a condition behind `!`, `attachment`, `(`, `and` / `or`
+ANYWHERE = [
+    ('unknown-macro', 'match all move "${nosuch}"'),
+    ('unknown-macro-in-action-list', 'match new label "l" exec stdin { "c" "${nosuch}" "d" } pass'),
+    ('unknown-macro-in-condition', 'match ! ( new and header { "To" "${nosuch}" } /x/ ) break'),
+    ('path-macro-outside-action', 'match attachment isdirectory "${path}" break'),
+    ('unknown-unit', 'match date > 3 foo break'),
+    ('ambiguous-unit', 'match old or attachment ( date modified < 2 m ) break'),
+    ('keyword-as-unit', 'match date created > 1 match break'),
+    ('exec-option-repeated', 'match all label "l" exec stdin body stdin "c"'),
+]
+STDIN_BLOCK = 'stdin {\n\tmatch all discard\n}\n'
+STDIN_PATH_BLOCK = 'maildir { "/r/other" "/dev/stdin" } {\n\tmatch all break\n}\n'
+
+
+def anywhere_cases(conf):
+    """conf: a valid configuration in the layout of gen_rules (one rule per line, `}` of a block on a line of its own).
+    -> [(class, text, line of the first diagnostic)]: each defective rule on a line of its own in front of every rule and in front of the
+    closing brace of every block - every rule position of every block, nested ones included -, and a block written `stdin` behind a
+    block that reads from stdin, at every pair of block positions."""
+    lines = conf.split('\n')
+    out = []
+    for i, ln in enumerate(lines):
+        if ln.strip().startswith('match ') or ln.strip() == '}':
+            for name, rule in ANYWHERE:
+                out.append((name, '\n'.join(lines[:i] + ['\t' + rule] + lines[i:]), i + 1))
+    nl = lambda t: t.count('\n')
+    for first in (STDIN_BLOCK, STDIN_PATH_BLOCK):
+        out.append(('second-stdin-block', conf + first + STDIN_BLOCK, nl(conf + first) + 1))
+        out.append(('second-stdin-block', first + conf + STDIN_BLOCK, nl(first + conf) + 1))
+        out.append(('second-stdin-block', first + STDIN_BLOCK + conf, nl(first) + 1))
+    return out
+
+
+# --------------------------------------------------------------------------
 # configuration families (tools/conffam.py): macro-name relations, integer literals, path-list shapes of maildir blocks
 # --------------------------------------------------------------------------
 
@@ -773,6 +811,16 @@ def run(rep):
     printed_bad = [(r_, im_) for r_, im_ in zip(preqs, pimpl) if not im_.startswith('OK') or re.search(r' (?:block|and|or|neg|match|attachment|attblock|all|new|old|body|header|date|stat|command|move|flag|flags|discard|break|label|pass|reject|exec|addheader) (?!1 )\d+', im_)]
     for r_, im_ in printed_bad[:5]:
         rep.finding('unlisted', {'kind': 'written form not read back on line 1', 'config': r_[1][:1500].decode('latin-1'), 'implementation': im_[:600]})
+    # 1c'. one defect at every rule position (C14_error_anywhere_rejects_file): valid generated configurations, each defect of the three
+    # classes written at every rule position of every block: both parsers must report the first diagnostic on the line of the defect
+    aw_confs = [c.replace(R, '/r') for c in grammar_configs(rng, 25 if rep.tier == 'quick' else 1500)]
+    aw_ok = [c for c, im_ in zip(aw_confs, dconf.run([('conf', c.encode('latin-1'), HOME) for c in aw_confs], shrink=False)[0]) if im_.startswith('OK')]
+    aw_cases = [(c, k) for c in aw_ok for k in anywhere_cases(c)]
+    aw_impl, aw_model, _ = dconf.run([('conf', k[1].encode('latin-1'), HOME) for _, k in aw_cases], shrink=False)
+    aw_bad = [(c, k, im_) for (c, k), im_ in zip(aw_cases, aw_impl) if im_ != 'ERR %d' % k[2]]
+    for c, k, im_ in aw_bad[:5]:
+        rep.finding('unlisted', {'kind': 'defect at a rule position: ' + k[0], 'config': k[1][:1500], 'valid configuration it was written into': c[:1500],
+                                 'expected': 'first diagnostic on line %d' % k[2], 'implementation': im_[:300], 'deviations_in_this_family': len(aw_bad)})
     for r_, im_, mo_ in zip(creqs, cimpl, cmodel):
         if mo_ in ('FUEL', 'BADOP', 'BADHEX') or mo_.startswith('FAULT'):
             dconf.corr_mismatch.append((r_, im_, mo_, None)) if im_ == mo_ else None
@@ -984,6 +1032,17 @@ def run(rep):
         }),
         'configuration_bytes': dict(byte_stat, rule=confbytes.__doc__.split('\n\n')[1].replace('\n', ' ')),
         'lexer_records_without_offsets': nolex,
+        'defect_at_every_rule_position': {
+            'rule': 'C14_error_anywhere_rejects_file on the real parser: %d valid grammar-generated configurations (nested blocks, attachment '
+                    'blocks, macro definitions, comments); each of %d defective rules (unknown macro in an action, in a list of an exec action, '
+                    'in a header name inside ! ( and ); ${path} in isdirectory under attachment; unknown unit, ambiguous unit, keyword as unit, '
+                    'also under or / attachment / ( ); a repeated exec option) written at every rule position of every block - in front of every rule and of every '
+                    'closing brace -, and a block written stdin behind a stdin block or a maildir block with the path /dev/stdin at every pair '
+                    'of positions: config_parse and Model.parseConfig must both report the first diagnostic on the line of the defect'
+                    % (len(aw_ok), len(ANYWHERE)),
+            'cases': len(aw_cases), 'classes': {n: sum(1 for _, k in aw_cases if k[0] == n) for n in sorted(set(k[0] for _, k in aw_cases))},
+            'deviations': len(aw_bad), 'model_disagreements': sum(1 for a, b in zip(aw_impl, aw_model) if a != b),
+        },
         'correspondence_mismatches': len(corr_bad),
         'parser_requests': len(creqs), 'parser_accepted': conf_ok, 'parser_rejected': conf_err,
         'parser_distinct_diagnostic_lines': conf_lines, 'parser_inner_nodes_compared': conf_nodes,
